@@ -745,3 +745,32 @@ def r11_rounding_epsilon(ck, P):
                     ck.violation(R, f.name, 'rotation offset rounding', '%s converts a translation to a source offset with the constant %d instead of pixman_fixed_1 / 2 - pixman_fixed_e (32767): for translations with a fraction of exactly one half it copies from one row/column further than the extent analysis allowed, reading outside the image at the border' % (f.name, lf.get((), 0)), x.loc())
     if n == 0:
         ck.incomplete(R, 'no coordinate-to-index conversion found')
+
+
+def r12_wrap_is_a_loop(ck, P):
+    """NORMAL repeat in the nearest scanline kernels: the coordinate is brought back into the tile by a loop, for any step size"""
+    from .factors import _loops_of
+    R = ck.rule('C04-R9', 'in every scaled nearest-neighbour scanline kernel the subtraction that wraps the source coordinate back into the tile (vx -= width of the tile) sits in a loop of its own (while (vx >= 0)): a single conditional subtraction lets vx grow without bound when the step exceeds the tile width, and pixels are then read further and further past the source', floor=6)
+    n = 0
+    for un, u in P.units.items():
+        L = None
+        for f in u.functions.values():
+            if 'scaled_nearest_scanline' not in f.name or f.name.endswith('_wrapper'):
+                continue
+            wp = [i for i, (pn, pt) in enumerate(f.params) if pn in ('src_width_fixed', 'max_vx')]
+            if not wp:
+                continue
+            if L is None:
+                L = _loops_of(u)
+            loops = L.get(f.name, [])
+            for x in f.insts():
+                if x.op != 'sub' or x.a[1][:2] != ['a', wp[0]]:
+                    continue
+                n += 1; ck.saw(f)
+                inner = [lp for lp in loops if x.bb.id in lp['blocks'] and lp['parent'] != -1]
+                if inner:
+                    ck.ok(R, '%s: wrap at %s is a loop' % (f.name, x.loc()))
+                else:
+                    ck.violation(R, f.name, 'single-step wrap of the source coordinate', '%s subtracts the tile width from the source coordinate at most once per pixel (%s): with a step larger than the tile the coordinate is still outside afterwards and the next load reads past the source' % (f.name, x.loc()), x.loc())
+    if n == 0:
+        ck.incomplete(R, 'no wrapping subtraction found in the scaled nearest scanline kernels')
